@@ -325,8 +325,11 @@ VerdictUrl(e, R) ==
                  IF Opt(e.u.host) = <<>> THEN "ok"
                  ELSE IF e.k2 # "url" \/ e.u2 # e.u THEN "Idempotence"
                  ELSE "ok"))))
+\* k = "did-not-return": the call (or the re-parse of its result) exceeded the harness's CPU-time budget
+\* and was killed - "for every string, parse_url either returns a Url or raises LocationParseError"
 Verdict(e) ==
   IF e.k = "lpe" THEN "ok"
+  ELSE IF e.k = "did-not-return" THEN "Totality:DidNotReturn"
   ELSE IF e.k # "url" THEN "Total:OnlyUrlOrLocationParseError"
   ELSE VerdictUrl(e, Ref(e.s))
 
@@ -515,7 +518,8 @@ WireSentSet(o, R, W, sc, h, dp, q) ==
          \cup (IF W.mode = "forward" THEN AbsoluteSet(Ref(q.t), R, sc, h, dp) ELSE OriginSet(q.t, R))
          \cup VariantsSet(o, R)
 WireClauses2(o, R, P) ==
-    IF o.k # "sent" THEN F(o.dials = <<>>, "Wire:RejectedButDialled")
+    IF o.k = "did-not-return" THEN {"Wire:DidNotReturn"}     \* the request never came back (CPU-time watchdog)
+    ELSE IF o.k # "sent" THEN F(o.dials = <<>>, "Wire:RejectedButDialled")
     ELSE IF ~WireDefined(R) THEN {"-"}                 \* outside the property's quantifier: not judged
     ELSE IF o.req = <<>> THEN {"Wire:OneRequest"}
     ELSE WireSentSet(o, R, WireOf(R, IF o.px = NONE THEN "none" ELSE "proxy", P), Lower(R.scheme), WireHost(R.host),
